@@ -2,6 +2,7 @@
 
 from __future__ import annotations
 
+import datetime
 import json
 import os
 import shutil
@@ -115,6 +116,9 @@ def time_units(sc, file_index: int = 0):
     per = sc["frames"].get("time_units_per_file")
     if per:
         tu = per[file_index % len(per)]
+    if tu == "year1":
+        # ROMS with TIME_REF = 0 counts from 0001-01-01 in the standard (mixed Julian/Gregorian) calendar
+        return "seconds_year1", np.datetime64("0001-01-01T00:00:00", "s")
     if tu.startswith("back"):       # seconds since a reference that many minutes before 2000-01-01
         return "seconds", np.datetime64("2000-01-01T00:00:00", "s") - np.timedelta64(int(tu[4:]) * 60, "s")
     if tu == "epoch":
@@ -168,11 +172,19 @@ def write_forcing_file(path: Path, sc, frames: list[int], times=None, file_index
                 svars[name].scale_factor = np.float32(0.0625)
                 svars[name].add_offset = np.float32(truth.scalar_offset(name))
         unit, tref = time_units(sc, file_index)
+        year1 = unit == "seconds_year1"
+        if year1:
+            unit = "seconds"
+            tv.calendar = "standard"
         tv.units = f"{unit} since {str(tref).replace('T', ' ')}"
         per = {"seconds": 1, "hours": 3600, "days": 86400}[unit]
         for n, f in enumerate(frames):
             if times is not None:
                 tv[n] = times[n]
+            elif year1:
+                import cftime
+
+                tv[n] = float(cftime.date2num(ftimes[f].astype("M8[s]").astype(datetime.datetime), tv.units, calendar="standard"))
             else:
                 tv[n] = float((ftimes[f] - tref) / np.timedelta64(1, "s")) / per
             a, b, _ = truth.stored_uv(sc, f, file_index)
@@ -457,6 +469,11 @@ def build_config(sc, d: Path, shims: bool = True, warm_file: str | None = None,
         wvars += [v for v in pvars if v in out.get("pvars", {})]
         cfg["warm_start"] = {"filename": warm_file, "variables": wvars}
 
+    if sc.get("native_times"):
+        # unquoted timestamps: the YAML / TOML reader hands LADiM datetime objects (naive: no time zone is meant)
+        for k in ("start", "stop", "reference"):
+            if isinstance(cfg["time"].get(k), str):
+                cfg["time"][k] = datetime.datetime.fromisoformat(cfg["time"][k])
     if shims:
         for sec in ("state", "time", "release", "tracker", "output"):
             cfg[sec]["module"] = shim
@@ -476,6 +493,8 @@ def _toml_value(v) -> str:
         return "true" if v else "false"
     if isinstance(v, (int, float)):
         return repr(v)
+    if isinstance(v, datetime.datetime):
+        return v.isoformat()        # TOML local date-time
     if isinstance(v, str):
         return json.dumps(v)
     if isinstance(v, (list, tuple)):
